@@ -86,7 +86,8 @@ PROPS["C04"] = {
         {"spec": "ValueSearch.tla", "cfg": "ValueSearch_neg_emit.cfg", "expect": "violation"},
         {"spec": "ValueSearch.tla", "cfg": "ValueSearch_neg_validate.cfg", "expect": "violation"},
     ],
-    "drivers": [dht_driver("TestOpsValue")],
+    "drivers": [dht_driver("TestOpsValue"),
+                {"test": "TestLocalValue", "trace_spec": "LocalValueTrace.tla", "trace_cfg": "LocalValueTrace.cfg", "inv_cfg": {"C04": "LocalValueTrace_C04.cfg"}}],
     "assumptions": COMMON_ASSUME + ["values are abstracted to (validity class, rank) by the harness validator"],
     "explanation": "GetValue / SearchValue of the real IpfsDHT with valid, stale, invalid and mis-keyed records at responders and in the local store, every quorum, validated against C04 clauses.",
 }
